@@ -582,7 +582,7 @@ func cmdCheck(args []string) int {
 			var picked []PathSample
 			var list []map[string]any
 			for _, s := range res.Samples {
-				if s.End == "done" && len(picked) < cfg.Conform {
+				if s.End == "done" && s.ModelOK && len(picked) < cfg.Conform {
 					picked = append(picked, s)
 					list = append(list, map[string]any{"harness": es.name, "kind": "conform", "inputs": jsonSafeInputs(s.Inputs)})
 				}
